@@ -15,6 +15,7 @@ from typing import Optional
 from .. import addons
 from .. import block
 from .. import simulator
+from ..exceptions import EdzedInvalidState
 from . import cron
 from . import timeinterval as ti
 
@@ -102,6 +103,8 @@ class TimeDate(addons.AddonPersistence, block.SBlock):
         }
 
     def get_state(self) -> dict[str, list|None]:
+        if not self.is_initialized():
+            raise EdzedInvalidState(f"get_state() on uninitialized block {self}")
         return self._export3(self._times, self._dates, self._weekdays)
 
     def _is_configured(self) -> bool:
@@ -164,6 +167,8 @@ class TimeSpan(addons.AddonPersistence, block.SBlock):
         return ti.DateTimeInterval(span).as_list()
 
     def get_state(self) -> ti.NDT_IntervalType:
+        if not self.is_initialized():
+            raise EdzedInvalidState(f"get_state() on uninitialized block {self}")
         return self._span.as_list()
 
     def recalc(self, now: dt.datetime) -> None:
